@@ -211,7 +211,7 @@ struct SIMDVector<int64_t,simd_abi::avx512> {
 
     FASTOR_INLINE int64_t minimum() {
         const internal::int64_lane_t *vals = reinterpret_cast<const internal::int64_lane_t*>(&value);
-        int64_t quan = 0;
+        int64_t quan = vals[0];
         for (FASTOR_INDEX i=0; i<Size; ++i)
             if (vals[i]<quan)
                 quan = vals[i];
@@ -219,7 +219,7 @@ struct SIMDVector<int64_t,simd_abi::avx512> {
     }
     FASTOR_INLINE int64_t maximum() {
         const internal::int64_lane_t *vals = reinterpret_cast<const internal::int64_lane_t*>(&value);
-        int64_t quan = 0;
+        int64_t quan = vals[0];
         for (FASTOR_INDEX i=0; i<Size; ++i)
             if (vals[i]>quan)
                 quan = vals[i];
@@ -560,7 +560,7 @@ struct SIMDVector<int64_t,simd_abi::avx> {
 
     FASTOR_INLINE int64_t minimum() {
         const internal::int64_lane_t *vals = reinterpret_cast<const internal::int64_lane_t*>(&value);
-        int64_t quan = 0;
+        int64_t quan = vals[0];
         for (FASTOR_INDEX i=0; i<Size; ++i)
             if (vals[i]<quan)
                 quan = vals[i];
@@ -568,7 +568,7 @@ struct SIMDVector<int64_t,simd_abi::avx> {
     }
     FASTOR_INLINE int64_t maximum() {
         const internal::int64_lane_t *vals = reinterpret_cast<const internal::int64_lane_t*>(&value);
-        int64_t quan = 0;
+        int64_t quan = vals[0];
         for (FASTOR_INDEX i=0; i<Size; ++i)
             if (vals[i]>quan)
                 quan = vals[i];
@@ -879,7 +879,7 @@ struct SIMDVector<int64_t,simd_abi::sse> {
 
     FASTOR_INLINE int64_t minimum() {
         const internal::int64_lane_t *vals = reinterpret_cast<const internal::int64_lane_t*>(&value);
-        int64_t quan = 0;
+        int64_t quan = vals[0];
         for (FASTOR_INDEX i=0; i<Size; ++i)
             if (vals[i]<quan)
                 quan = vals[i];
@@ -887,7 +887,7 @@ struct SIMDVector<int64_t,simd_abi::sse> {
     }
     FASTOR_INLINE int64_t maximum() {
         const internal::int64_lane_t *vals = reinterpret_cast<const internal::int64_lane_t*>(&value);
-        int64_t quan = 0;
+        int64_t quan = vals[0];
         for (FASTOR_INDEX i=0; i<Size; ++i)
             if (vals[i]>quan)
                 quan = vals[i];
